@@ -218,7 +218,11 @@ func (a *OracleActor) Act(e *Env) {
 			}
 			if w.Height+1 >= r.Height+int64(off) {
 				r.Done[val] = true
-				v := w.ValByOperator(mustVal(val))
+				va, err := sdk.ValAddressFromBech32(val)
+				if err != nil {
+					continue // a committee entry that is not an address: judged by C09, not by this actor
+				}
+				v := w.ValByOperator(va)
 				if v == nil {
 					continue
 				}
@@ -238,13 +242,6 @@ func (a *OracleActor) Act(e *Env) {
 	}
 }
 
-func mustVal(s string) sdk.ValAddress {
-	v, err := sdk.ValAddressFromBech32(s)
-	if err != nil {
-		panic(err)
-	}
-	return v
-}
 
 func (a *OracleActor) honestRaw(e *Env, r *openRequest, val string) []oracletypes.RawReport {
 	var out []oracletypes.RawReport
@@ -521,8 +518,16 @@ func (p *SamplingParamChurn) Act(e *Env) {
 		return
 	}
 	np := e.App().OracleKeeper.GetParams(e.Ctx())
-	np.SamplingTryCount = uint64(e.Ch.Intn("oracle.churn.try", 7)) // 0 is invalid
-	if np.SamplingTryCount == 0 {
+	np.SamplingTryCount = uint64(e.Ch.Intn("oracle.churn.try", 10)) // 0 is invalid
+	switch np.SamplingTryCount {
+	case 7:
+		np.SamplingTryCount = 100
+	case 8:
+		np.SamplingTryCount = 1 << 63 // beyond the int range the sampler converts to
+	case 9:
+		np.SamplingTryCount = 1<<64 - 1
+	}
+	if np.Validate() != nil {
 		e.St.Fault("proposal_with_invalid_sampling_try_count")
 	} else {
 		e.St.Fault("sampling_try_count_changed_by_governance")
